@@ -595,8 +595,18 @@ def run_driver_step(prop, step, tier, seed):
                     except Exception:
                         pass
             if last is None:
-                nr.undecided = f"{step['name']}: driver produced no result (build failure?):\n" + p.stderr[-1500:]
-                return nr
+                # the driver died without a verdict. A panic raised INSIDE the code under check (location under /repo/) is a
+                # contract violation of its own (the drivers only feed well-formed inputs: nothing may panic); anything else
+                # (build failure, a bug of the driver) is undecided
+                m = re.search(r"panicked at (/repo/[^\s:]+:\d+):\d+:\n(.*)", p.stderr)
+                if m:
+                    hist = [l for l in p.stderr.split("\n") if l.startswith("LAST-HISTORY")]
+                    last = {"found": True, "case": "the code under check panicked while the driver was replaying a history",
+                            "input": (hist[-1] if hist else "see driver " + step["bin"]) + f" (seed {sd})",
+                            "observed": f"panic at {m.group(1)}: {m.group(2)[:300]}", "expected": "no panic"}
+                else:
+                    nr.undecided = f"{step['name']}: driver produced no result (build failure?):\n" + p.stderr[-1500:]
+                    return nr
             if last.get("found"):
                 nr.violation = json.dumps(last)[:1500]
                 nr.witness = last
